@@ -8,6 +8,7 @@ from __future__ import annotations
 from typing import Any, Optional
 
 URIS = ['u1', 'u2', 'u3']
+WILD = 'u4'            # namespace without declarations: its names are matched by the lax wildcards only
 PREFIXES = ['p', 'q', 'k']
 LOCALS = ['a', 'b']
 PRE = {'u1': 'p1', 'u2': 'p2', 'u3': 'p3'}
@@ -15,7 +16,9 @@ PRE = {'u1': 'p1', 'u2': 'p2', 'u3': 'p3'}
 
 # ------------------------------------------------------------------------------------------------
 # schema: elements a, b in no namespace and in u1..u3, all of one recursive type admitting any of them
-# as children, the global attributes {ui}x and the unqualified local attribute y.
+# as children, the global attributes {ui}x and the unqualified local attribute y; plus a lax element wildcard
+# for namespace u4 (undeclared names, decoded through xs:anyType) and a lax attribute wildcard for any
+# namespace (undeclared attribute names, qualified or not).
 def _schema_for(tns: str) -> str:
     imports = ''.join((f'<xs:import namespace="{o}"/>' if o else '<xs:import/>') for o in [''] + URIS if o != tns)
     decl = ''.join(f' xmlns:{PRE[o]}="{o}"' for o in URIS)
@@ -27,8 +30,10 @@ def _schema_for(tns: str) -> str:
             f'{imports}'
             + ''.join(f'<xs:element name="{n}" type="{tp}T"/>' for n in LOCALS)
             + ('<xs:attribute name="x" type="xs:string"/>' if tns else '')
-            + f'<xs:complexType name="T"><xs:choice minOccurs="0" maxOccurs="unbounded">{refs}</xs:choice>'
-            f'{arefs}<xs:attribute name="y" type="xs:string"/></xs:complexType></xs:schema>')
+            + f'<xs:complexType name="T"><xs:choice minOccurs="0" maxOccurs="unbounded">{refs}'
+            f'<xs:any namespace="{WILD}" processContents="lax"/></xs:choice>'
+            f'{arefs}<xs:attribute name="y" type="xs:string"/>'
+            f'<xs:anyAttribute namespace="##any" processContents="lax"/></xs:complexType></xs:schema>')
 
 
 _SCHEMA = None
@@ -45,8 +50,19 @@ def schema():
 # ------------------------------------------------------------------------------------------------
 # documents.  A node is a dict {'tag': [ns, local], 'attrs': [[ns, local], ...], 'decl': [[prefix, uri], ...],
 # 'ch': [...], 'pfx': prefix used to write the tag, 'apfx': prefixes used to write the attributes}
-def gen_doc(rng, max_depth: int = 5, max_nodes: int = 14) -> dict:
+def declared(tag: list) -> bool:
+    """the element name has a declaration (else it is matched by the lax wildcard and typed xs:anyType)"""
+    return tag[0] != WILD and tag[1] in LOCALS
+
+
+def unqualified_declared(tag: list) -> list:
+    """unqualified attributes declared by the type of the element (the encoder's name table)"""
+    return ['y'] if declared(tag) else []
+
+
+def gen_doc(rng, max_depth: int = 5, max_nodes: int = 14, wild: float = 0.0) -> dict:
     budget = [max_nodes]
+    uris = URIS + ([WILD] if wild else [])
 
     def scope_after(scope: dict, decl: list) -> dict:
         s = dict(scope)
@@ -71,11 +87,11 @@ def gen_doc(rng, max_depth: int = 5, max_nodes: int = 14) -> dict:
                 if scope.get('') and rng.random() < 0.4 or rng.random() < 0.03:
                     u = ''
                 else:
-                    u = rng.choice(URIS)
+                    u = rng.choice(uris)
             else:
                 cur = scope.get(p)
                 # favour rebinding to a different URI and binding several prefixes to one URI
-                u = rng.choice([x for x in URIS if x != cur] if cur and rng.random() < 0.7 else URIS)
+                u = rng.choice([x for x in uris if x != cur] if cur and rng.random() < 0.7 else uris)
             decl.append([p, u])
         s = scope_after(scope, decl)
         # element name among those expressible in scope
@@ -91,8 +107,15 @@ def gen_doc(rng, max_depth: int = 5, max_nodes: int = 14) -> dict:
             decl.append([p, u])
             s[p] = u
             opts.append((u, p))
+        if root and any(o[0] != WILD for o in opts):
+            opts = [o for o in opts if o[0] != WILD]         # the root needs a declaration
+        elif root:
+            p, u = rng.choice(PREFIXES), rng.choice(URIS)
+            decl = [d for d in decl if d[0] != p] + [[p, u]]
+            s[p] = u
+            opts = [(u, p)]
         ns, pfx = rng.choice(opts)
-        tag = [ns, rng.choice(LOCALS)]
+        tag = [ns, 'w' if ns == WILD else rng.choice(LOCALS)]
         attrs, apfx = [], []
         if rng.random() < 0.45:
             aopts = [(u, p) for p, u in s.items() if p and u]
@@ -101,10 +124,14 @@ def gen_doc(rng, max_depth: int = 5, max_nodes: int = 14) -> dict:
             for u, p in aopts[:rng.choice([1, 1, 2])]:
                 if u not in seen:
                     seen.add(u)
-                    attrs.append([u, 'x'])
+                    # undeclared attribute names (matched by the attribute wildcard) when wild
+                    attrs.append([u, 'w' if wild and (u == WILD or rng.random() < wild) else 'x'])
                     apfx.append(p)
         if rng.random() < 0.25:
             attrs.append(['', 'y'])
+            apfx.append('')
+        if wild and rng.random() < wild:
+            attrs.append(['', 'z'])                          # unqualified and undeclared
             apfx.append('')
         ch = []
         if depth < max_depth:
@@ -223,6 +250,31 @@ def view_jsonml(item: Any):
     return xmlns, attrs, ch
 
 
+def view_gdata(item: Any):
+    # attributes are the non-structured values; prefixes are written with '$'
+    if not isinstance(item, dict):
+        return [], [], []
+    xmlns, attrs, ch = [], [], []
+    for k, v in item.items():
+        if k == 'xmlns':
+            xmlns.append(('', v))
+        elif k.startswith('xmlns$'):
+            xmlns.append((k[6:], v))
+        elif k == '$t' or (k[:1] == '$' and k[1:].isdigit()):
+            continue
+        elif not isinstance(v, (dict, list)):
+            attrs.append(k if k[:1] == '{' else k.replace('$', ':'))
+        else:
+            for it in (v if isinstance(v, list) else [v]):
+                ch.append((k if k[:1] == '{' else k.replace('$', ':'), it))
+    return xmlns, attrs, ch
+
+
+def view_dataelement(item: Any):
+    # DataElement objects keep expanded tags; attribute names are mapped; xmlns per element
+    return ([tuple(x) for x in (item.xmlns or [])], list(item.attrib), [(c.tag, c) for c in item])
+
+
 class Unresolved(Exception):
     pass
 
@@ -289,7 +341,7 @@ def first_diff(a: Any, b: Any, path: str = '') -> Optional[dict]:
 
 # ------------------------------------------------------------------------------------------------
 # tracing converters
-TRACE: dict = {'calls': [], 'elems': {}, 'attrs': {}, 'ids': {}, 'last': None}
+TRACE: dict = {'calls': [], 'elems': {}, 'attrs': {}, 'ids': {}, 'last': None, 'init': None}
 
 
 def reset_trace(ids: dict) -> None:
@@ -298,11 +350,18 @@ def reset_trace(ids: dict) -> None:
     TRACE['attrs'] = {}
     TRACE['ids'] = ids
     TRACE['last'] = None
+    TRACE['init'] = None
 
 
 def _mk_traced(base):
     class Traced(base):  # type: ignore[misc,valid-type]
         __slots__ = ()
+
+        def __init__(self, *args, **kwargs):
+            super().__init__(*args, **kwargs)
+            # state after __init__ (user map + declarations read from the source)
+            TRACE['init'] = {'ns': [[k, v] for k, v in self.namespaces.items()],
+                             'rev': [[k, (v[:-1] if v else v)] for k, v in self._reverse.items()]}
 
         def set_xmlns_context(self, obj, level):
             ret = super().set_xmlns_context(obj, level)
